@@ -26,3 +26,46 @@ Example C13_src_nonvacuous : src_zone_is_child_of_recognised = true ->
   src_zone_is_child_of t 4 2 (Some 0) = Some true /\ src_zone_is_child_of t 3 1 (Some 2) = Some false /\
   src_zone_is_child_of t 2 2 (Some 0) = None.
 Proof. intro H; xl_rec H. all: repeat split; vm_compute; reflexivity. Qed.
+
+(* ---------------------------------------------------------------------------------------------------------------------
+   Round 2 (notes/XLATE.md section 8): the head of JsonRpcConnection::MessageHandler and the zone selection of
+   ApiListener::RelayMessageOne as translated from /repo on this run (coq/Facts/Facts_fn_zone2.v). *)
+From Icv Require Import Msg.MzFwd Facts.Facts_fn_zone2 Src.SrcZone2.
+Local Open Scope Z_scope.
+
+(* "ignore old messages", the sender's remote log position, and origin->FromZone = mz_from_zone *)
+Theorem C13_src_message_origin : src_jsonrpc_message_origin_recognised = true ->
+  forall l s has_ts ts rlp0,
+    src_jsonrpc_message_origin (mz_is_some (mz_ep s)) has_ts ts rlp0 (xz_ep_zone s) l (mz_cclaim s)
+    = let old := mz_is_some (mz_ep s) && has_ts && (ts <? rlp0) in
+      (old,
+       if mz_is_some (mz_ep s) && has_ts && negb (ts <? rlp0) then ts else rlp0,
+       if old then None else mz_from_zone l s).
+Proof. exact src_jsonrpc_message_origin_eq. Qed.
+Print Assumptions C13_src_message_origin.
+
+Theorem C13_src_message_origin_handle : src_jsonrpc_message_origin_recognised = true ->
+  forall t c s m tsk row eff has_ts ts rlp0,
+    mz_ts_is tsk MzTsOld = has_ts && (ts <? rlp0) -> mz_ts_is tsk MzTsNew = has_ts && negb (ts <? rlp0) ->
+    let '(dropped, rlp, fz) := src_jsonrpc_message_origin (mz_is_some (mz_ep s)) has_ts ts rlp0 (xz_ep_zone s) (mz_local c) (mz_cclaim s) in
+    mz_dropped (mz_handle_core t c s m tsk row eff) = dropped /\
+    (mz_rlp (mz_handle_core t c s m tsk row eff) = true -> rlp = ts) /\
+    (dropped = false -> mz_rlp (mz_handle_core t c s m tsk row eff) = false -> rlp = rlp0) /\
+    (dropped = false -> fz = mz_from_zone (mz_local c) s).
+Proof. exact src_jsonrpc_message_origin_handle. Qed.
+Print Assumptions C13_src_message_origin_handle.
+
+(* RelayMessageOne returns early exactly when mz_relay_one has no candidate zone; otherwise the zones it goes through are mz_relay_one's *)
+Theorem C13_src_relay_target_zones : src_relay_target_zones_recognised = true ->
+  forall t l a,
+    src_relay_target_zones t l a (map Some (seq 0 (length t)))
+    = (match mz_relay_one t l a with [] => true | _ => false end, map Some (mz_relay_one t l a)).
+Proof. exact src_relay_target_zones_eq. Qed.
+Print Assumptions C13_src_relay_target_zones.
+
+Example C13_src_round2_nonvacuous : src_jsonrpc_message_origin_recognised = true ->
+  (* an endpoint of the local zone 1 may claim an origin zone; one of another zone may not; old messages are dropped *)
+  src_jsonrpc_message_origin true true 10 5 (Some 1%nat) 1%nat (Some 7%nat) = (false, 10, Some 7%nat) /\
+  src_jsonrpc_message_origin true true 10 5 (Some 2%nat) 1%nat (Some 7%nat) = (false, 10, Some 2%nat) /\
+  src_jsonrpc_message_origin true true 4 5 (Some 2%nat) 1%nat (Some 7%nat) = (true, 5, None).
+Proof. intro H; xl_rec H. all: repeat split; vm_compute; reflexivity. Qed.
